@@ -571,6 +571,12 @@ def t6(rep, w):
                     rr = s['r']
                     if rr.get('rv') == 'use':
                         ok, why = safe_identity(f, org, rr['o'])
+                        if not ok and byte_count_advance(f, org, rr['o']):
+                            # cursor + (number of bytes the function counted while looking at them through as_bytes()): a byte-level scan.
+                            # Whether every counted byte was identified as ASCII is not something provenance can tell: not judged here
+                            # (T8 holds element-wise reads of the source to explicit bounds tests)
+                            r.note('%s advances Scanner.%s by a counted number of bytes (byte-level scan: not judged by T6)' % (f.path, d['p'][-1]['n']))
+                            continue
                     else:
                         ok, why = False, rr.get('rv')
                     n += 1
@@ -645,6 +651,26 @@ def t6(rep, w):
             r.ok('get_next_char_boundary / result #%d is the result of %s' % (rets, (callee_name(t) or '?').rsplit('::', 1)[-1]))
     if rets < 1:
         raise Broken('C03', 'floor', 'T6: get_next_char_boundary has %d result assignments' % rets)
+
+
+def byte_count_advance(f, org, o):
+    pl = op_place(o)
+    if pl is None:
+        return False
+    paths = org.get(pl['l'], ())
+    counted = False
+    for q in paths:
+        toks = [t for t in q[1:] if t != '*' and not t.startswith('@') and not t.startswith('in ') and not t.startswith('as ')]
+        if q[0][0] == 'call' and strip_generics(q[0][2]).rsplit('::', 1)[-1] in ('count', 'position', 'len') and set(toks) <= {'#bin'}:
+            if strip_generics(q[0][2]).rsplit('::', 1)[-1] in ('count', 'position'):
+                counted = True
+            continue
+        if q[0][0] == 'const' and set(toks) <= {'#bin'}:
+            continue
+        if q[0][0] == 'arg' and toks and toks[0] in ('current', 'start') and set(toks[1:]) <= {'#bin'}:
+            continue
+        return False
+    return counted
 
 
 def t7(rep, w):
